@@ -92,6 +92,21 @@ def programs(tier):
         el(tm, [('attr', z)], ctx='comp-child') + '</comp>' + el(tm, [('attr', y), ('attr', z)]))
     add('block and nested elements', lambda tm: '<block>' + el(tm, [('attr', x)], children=el(tm, [('attr', ('mem', x, 'k')), ('data', y)], text=y)) + '</block>')
     add('include', lambda tm: el(tm, [('attr', x)]) + '<include src="b"/>' + el(tm, [('attr', y)]))
+    # nesting of dynamic subtrees: a use before / after an inner dynamic node, still inside the outer one, and after both
+    outers = {'if': ('<view wx:if="{{ w }}">%s</view>', 'if'), 'else': ('<view wx:if="{{ w }}">a</view><view wx:else>%s</view>', 'if'),
+              'for': ('<view wx:for="{{ l }}">%s</view>', 'for'), 'block-for': ('<block wx:for="{{ l }}" wx:key="k">%s</block>', 'for')}
+    inners = {'if': '<text wx:if="{{ w2 }}">on</text>', 'for': '<block wx:for="{{ l2 }}">i</block>', 'template-is': '<template is="t"/>',
+              'include': '<include src="b"/>', 'slot': '<slot/>', 'if-else': '<text wx:if="{{ w2 }}">on</text><text wx:else>off</text>'}
+    tdef = '<template name="t"><view/></template>'
+    for on, (ow, octx) in outers.items():
+        for inn, iw in inners.items():
+            if tier != 'thorough' and (on, inn) not in (('if', 'for'), ('for', 'if'), ('else', 'for'), ('for', 'template-is'), ('if', 'slot'), ('block-for', 'include'), ('for', 'if-else'), ('if', 'if')):
+                continue
+            add('nested %s > %s' % (on, inn), lambda tm, ow=ow, octx=octx, iw=iw: el(tm, [('attr', x)]) +
+                ow % (el(tm, [('attr', I('q1'))], ctx=octx) + iw + el(tm, [('attr', I('q2'))], text=I('q3'), ctx=octx)) + el(tm, [('attr', y)], text=I('q4')) + tdef)
+    for (o1, o2) in (('for', 'if'), ('if', 'for')):
+        add('nested depth 3 %s > %s' % (o1, o2), lambda tm, o1=o1, o2=o2: el(tm, [('attr', x)]) +
+            outers[o1][0] % (outers[o2][0] % (inners['if'] + el(tm, [('attr', I('q1'))], ctx=outers[o2][1])) + el(tm, [('attr', I('q2'))], ctx=outers[o1][1])) + el(tm, [('attr', y)]))
     return progs
 
 
